@@ -33,6 +33,25 @@ fn readiness<T: Dom>(outer: VK, inner: Option<VK>, k: usize, warm: Warm) {
         }
     }
 }
+/// readiness and finiteness polled only at the listed steps (the other updates are silent): all comparison outcomes at window lengths
+/// far beyond the small ones, and runs of thousands of updates, stay affordable because nothing is asked in between
+fn readiness_sparse<T: Dom>(vk: VK, k: usize, polls: Vec<usize>, flat_tail_from: Option<usize>) {
+    let positive = vk.needs_positive();
+    let mut v = build::<T>(&vk, echo());
+    let name = vk.name();
+    let mut was_ready = false;
+    let w = documented(&vk);
+    let c = flat_tail_from.map(|_| { let c = T::input(if positive { "posc" } else { "c" }); if positive { T::assume(lt(T::zero(), c)); } c });
+    for t in 0..k {
+        let x = match (flat_tail_from, c) { (Some(f), Some(c)) if t >= f => c, _ => { let x = T::input(&format!("{}x{t}", if positive { "pos" } else { "" })); if positive { T::assume(lt(T::zero(), x)); } x } };
+        v.update(x);
+        if !polls.contains(&t) { continue; }
+        let o = v.last();
+        if was_ready { T::oblige(&format!("{name} t={t}: readiness never reverts"), Cond::Bool(o.is_some())); }
+        if let Some(val) = o { T::oblige(&format!("{name} t={t}: reported value is finite"), Cond::Bool(finite(val))); was_ready = true; }
+        if let Warm::Exactly(wm) = w { T::oblige(&format!("{name} t={t}: has a value iff at least {wm} values were delivered"), Cond::Bool(o.is_some() == (t + 1 >= wm))); }
+    }
+}
 /// a wrapper whose inner view never delivers anything never changes its answer
 fn silent<T: Dom>(outer: VK, k: usize) {
     let mut v = build::<T>(&outer, DynV::new(Silent));
@@ -104,13 +123,35 @@ pub fn units(tier: Tier, seed: u64) -> Vec<Unit> {
         }
     }
     for x in u.iter_mut().skip(first_big) { x.concolic = Some(seed + 11); x.max_decisions = 60000; }
+    // all comparison outcomes at N = 130 and 200, polled at the last three steps only
+    let first_sparse = u.len();
+    for &n in &[130usize, 200] {
+        for vk in views_for(n) {
+            // the views whose own comparisons are linear in the inputs (a nonlinear branch condition over 130 values is beyond nlsat)
+            if !matches!(vk, VK::Sma(_) | VK::Cumulative(_) | VK::CoG(_) | VK::Roc(_) | VK::Alma(_) | VK::Ema(_) | VK::SuperSmoother(_) | VK::CyberCycle(_) | VK::BinaryEntropy(_) | VK::Min(_) | VK::Max(_)) { continue; }
+            let wl = n;
+            let k = wl + 3;
+            u.push(unit!(format!("C08/readiness/{}/k={k}/polled-at-the-end", vk.name()), readiness_sparse(vk.clone(), k, vec![k - 3, k - 2, k - 1], None)));
+        }
+    }
+    // thousands of updates: three free values, then one repeated value; polled around every power of two from 256 on
+    for vk in views_for(3) {
+        if vk.is_leaf() || matches!(vk, VK::TrendFlex(_) | VK::ReFlex(_) | VK::NET(_) | VK::EFT(..) | VK::LaguerreRSI(_) | VK::WelfordRolling | VK::WelfordOnline(_) | VK::Vst(_) | VK::Vsct(_)) { continue; }
+        let k = 8300usize;
+        let mut polls: Vec<usize> = vec![];
+        let mut p = 256usize; while p < k { for d in 0..4 { polls.push(p - 2 + d); } p *= 2; }
+        polls.extend([k - 2, k - 1]);
+        u.push(unit!(format!("C08/readiness/{}/k={k}/flat-tail", vk.name()), readiness_sparse(vk.clone(), k, polls.clone(), Some(3usize))));
+    }
+    for x in u.iter_mut().skip(first_sparse) { x.max_decisions = 400000; }
     for x in u.iter_mut() { x.panic_is_violation = true; x.path_cap = 6000; x.branch_nl_timeout_ms = Some(1000); x.budget_s = if tier == Tier::Quick { 60.0 } else { 600.0 }; }
+    for x in u.iter_mut().skip(first_sparse) { x.path_cap = 300; x.budget_s = 25.0; }
     u
 }
 pub fn meta() -> Meta {
     Meta {
         functions: vec!["every view of the crate ::{new,update,last} (catalogue in engine/src/views.rs), over Echo, over a never-ready leaf, and in seeded two-level chains"],
-        bounds: "N in {1,2,3} (quick) / {1..6} (thorough), raised to the view's minimum (CTI/NET/PFE/CyberCycle/TrendFlex/ReFlex 3, EFT/LaguerreRSI/Roofing 2); k = 2N+3 (N+3 capped at 8 for heavily branching views); inputs unconstrained reals, positive for Drawdown/LnReturn; 24 (quick) / 120 (thorough) VERIF_SEED-selected two-level chains at N=2, k=7; all comparison outcomes up to a cap of 6000 paths per unit (reported if hit); in addition every view at N in {8,16,33,64} (quick) / {7,8,12,16,32,33,64,65,100}, k=N+4, along the comparison path of a pseudo-random sample",
+        bounds: "N in {1,2,3} (quick) / {1..6} (thorough), raised to the view's minimum (CTI/NET/PFE/CyberCycle/TrendFlex/ReFlex 3, EFT/LaguerreRSI/Roofing 2); k = 2N+3 (N+3 capped at 8 for heavily branching views); inputs unconstrained reals, positive for Drawdown/LnReturn; 24 (quick) / 120 (thorough) VERIF_SEED-selected two-level chains at N=2, k=7; all comparison outcomes up to a cap of 6000 paths per unit (reported if hit); in addition every view at N in {8,16,33,64} (quick) / {7,8,12,16,32,33,64,65,100}, k=N+4, along the comparison path of a pseudo-random sample; all comparison paths (up to 300) at N in {130,200}, k=N+3, polled at the last three steps, for Sma, Cumulative, CoG, Roc, Alma, Ema, SuperSmoother, CyberCycle, BinaryEntropy, Min, Max; and runs of 8300 updates at N=3 (three free values, then one repeated symbolic value), polled around every power of two from 256, for every view but TrendFlex, ReFlex, NET, EFT, LaguerreRSI and the Welford family",
         outside: vec!["overflow to ±Inf in f64 from large magnitudes", "streams longer than k ('for ever' is argued from the monotone structure, not checked)", "chains deeper than two"],
         assumptions: vec!["a crate panic (including its own finiteness debug_assert!) on a feasible path counts as a violation of 'returns a finite value'", "division by a symbolic zero yields the IEEE special (NaN/±Inf), which is then what `is_finite` sees"],
     }
